@@ -28,7 +28,7 @@ class Unit:
         self.enums = d.get("enums", [])
         self.stats = d["stats"]
         self.functions = d["functions"]
-        if os.environ.get("VERIF_ALPHA"):
+        if not os.environ.get("VERIF_NO_ALPHA"):
             _alpha_rename(self.functions)
         self.lambda_by_class = {}
         self.fn_by_id = {}
@@ -81,35 +81,58 @@ class Unit:
         return self.decls.get(c)
 
 
+LEGENDS = {}   # qualified function name (no template arguments) -> {canonical name: {original spellings}}
+
+
+def legend_for(fndesc, text):
+    """' [r_a0=_source, ...]' for the canonical names that occur in `text`, looked up by the function description"""
+    qn = strip_targs((fndesc or "").split(" [lambda")[0].split("<")[0]) if fndesc else ""
+    lg = LEGENDS.get(qn) or LEGENDS.get(strip_targs((fndesc or "").split(" ")[0])) or {}
+    toks = sorted(set(re.findall(r"\br_l*[av]\d+\b", text or "")))
+    items = ["%s=%s" % (t, "/".join(sorted(lg[t]))) for t in toks if t in lg]
+    return (" [names: " + ", ".join(items) + "]") if items else ""
+
+
 def _alpha_rename(functions):
-    """Robustness self-test (VERIF_ALPHA=1): rename every parameter and local variable of library functions to a
-    name derived from nothing but its position, as a behaviour-preserving refactoring would. A check that still
-    passes does not depend on the spelling of locals and parameters."""
+    """Canonical names (always on; VERIF_NO_ALPHA=1 switches it off for debugging): every parameter and local variable
+    is renamed to a name derived from nothing but its position -- parameter i of a function `r_a<i>`, its k-th local
+    `r_v<k>`, one `l` per lambda nesting level (`r_la0`, `r_lv0`, `r_lla0` ...). The original spelling is kept in
+    `orig`. No rule, instance key, justification or known-finding key can therefore depend on how a local or a
+    parameter is spelled: renaming them in /repo changes nothing the checks see."""
     ren = {}
+    orig = {}
 
     def decls_of(fn, prefix):
         for i, p in enumerate(fn.get("params", [])):
             if p.get("name"):
                 ren[p["id"]] = "%sa%d" % (prefix, i)
+                orig[p["id"]] = p["name"]
         k = [0]
         for n in walk(fn.get("body"), into_lambdas=False):
             if n.get("k") == "var" and n.get("name") and "id" in n:
                 ren[n["id"]] = "%sv%d" % (prefix, k[0])
+                orig[n["id"]] = n["name"]
                 k[0] += 1
             if n.get("k") == "lambda":
                 for j, op in enumerate(n.get("ops", [])):
                     decls_of(op, prefix + "l")
     for fn in functions:
+        before = set(ren)
         decls_of(fn, "r_")
+        lg = LEGENDS.setdefault(strip_targs(fn.get("qn", "")), {})
+        for i in set(ren) - before:
+            lg.setdefault(ren[i], set()).add(orig[i])
 
     def apply(fn):
         for p in fn.get("params", []):
             if p.get("id") in ren:
+                p.setdefault("orig", p.get("name"))
                 p["name"] = ren[p["id"]]
         roots = [fn.get("body")] + [i.get("init") for i in fn.get("inits", []) or []]
         for r in roots:
             for n in walk(r, into_lambdas=False):
                 if n.get("k") in ("ref", "var") and n.get("id") in ren:
+                    n.setdefault("orig", n.get("name"))
                     n["name"] = ren[n["id"]]
                 if n.get("k") == "lambda":
                     for c in n.get("captures", []):
